@@ -1,6 +1,25 @@
 """What MANIFEST.json claims, per property (input of tools/gen_manifest.py)."""
 
 CLAIMS = {
+    "C01": dict(
+        text="Proof for all 252 mnemonics and every operand skeleton the grammar produces, with register numbers, operand values, inline field values "
+             "and addresses symbolic over Z: the real table built by init() equals an independent ISA table (closed, exhaustive); the real "
+             "compile_insn/get_opcode places every field of every mnemonic exactly where that table says (z3, all field values); each operand stub "
+             "(register, 8 addressing modes, immediate/absolute/relative, index with hoisting, FP11 accumulators, inline numbers) returns the "
+             "mode/register field and extension word the PDP-11 defines or reports an error; an independent decoder recovers operation, fields and "
+             "operand order from every such encoding (exhaustive lemma over all 69121 field combinations).",
+        note="Trusted: pyvc semantics of the Python subset, z3, the independent tables spec/pdp11_isa.py and spec/pdp11_decode.py (6 rows have no independent "
+             "source), closed facts read from the imported package. Assumed: the parser yields exactly the enumerated operand skeletons (A2); expression "
+             "leaves evaluate to an arbitrary integer (C03/C05). compile_insn is proved against the stubs' contracts (modular).",
+    ),
+    "C04": dict(
+        text="Proof for every integer target, address and distance (no bound, wrap-around modulo 2^16 included): OffsetOperandStub.encode accepts exactly "
+             "the even offsets in -256..+254 (branches) / -126..0 (SOB), the accepted field makes the machine land on the target, a rejected one is an "
+             "error with field 0 (never wrapped); relative and relative-deferred extension words satisfy EA == target (mod 2^16); compile_insn hands operand k "
+             "rel_address == emit + 2 + bytes of the preceding extension words; no branch-operand skeleton raises an internal exception.",
+        note="Trusted: pyvc, z3, the stated PDP-11 branch/SOB/PC-relative semantics. Assumed: parser skeletons (A2), Symbol._resolve returns an arbitrary integer "
+             "(ready or lazy). The '(' / ':' text test of the label fix-up is modelled by per-skeleton text facts.",
+    ),
     "C06": dict(
         text="Proof, for all integer operand values and addresses (no bound) and operand counts 0..8: get_as_int satisfies its full case table "
              "(accept exactly |v| < 2^n, reduce mod 2^n, otherwise exactly one error) for every (bitness, signedness, default) incl. symbolic bitness; "
